@@ -808,14 +808,22 @@ impl MemoryLoc {
                     if self.offset != 0 {
                         addr = builder.ins().iadd_imm(addr, self.offset as i64);
                     }
+                    // copy `size` bytes, not `stride`: fields are packed by size, so the
+                    // bytes in `size..stride` belong to whatever follows the destination.
+                    // `emit_small_memory_copy` asserts that the alignment it is given
+                    // divides the byte count, so only claim it when it does
+                    let align = if ty.size() % ty.align() == 0 {
+                        ty.align() as u8
+                    } else {
+                        1
+                    };
                     builder.emit_small_memory_copy(
                         module.target_config(),
                         addr,
                         val,
-                        // this has to be stride for some reason, it can't be size
-                        ty.stride() as u64,
-                        ty.align() as u8,
-                        ty.align() as u8,
+                        ty.size() as u64,
+                        align,
+                        align,
                         true,
                         MemFlags::trusted(),
                     )
@@ -826,7 +834,7 @@ impl MemoryLoc {
                     let mut off = 0;
                     macro_rules! mem_cpy_loop {
                         ($width:expr) => {
-                            while (off + $width) <= (ty.stride() as i32 / $width) * $width {
+                            while (off + $width) <= (ty.size() as i32 / $width) * $width {
                                 let bytes = builder.ins().load(
                                     cranelift::codegen::ir::Type::int_with_byte_size($width)
                                         .unwrap(),
